@@ -53,7 +53,7 @@ def one(m, keep=False):
         open(p, "w").write(s.replace(old, new, 1))
         env = dict(os.environ, VERIF_REPO=top, VERIF_BUILD_SUFFIX="." + name)
         r = subprocess.run([os.path.join(VERIF, "verif"), "harness", harness], capture_output=True, text=True, env=env)
-        refuted = [l.split()[1] for l in r.stdout.splitlines() if l.strip().startswith("FAILURE") and "canary/" not in l]
+        refuted = [l.split()[1] for l in r.stdout.splitlines() if l.strip().startswith("FAILURE") and "canary/" not in l and "reach/" not in l]
         if label in refuted:
             return name, "caught", ", ".join(refuted)
         return name, "MISSED", "refuted: %s | %s" % (refuted, r.stdout[-400:])
